@@ -88,7 +88,7 @@ def schema_shape(s, depth=0):
         elif k in ("oneOf", "anyOf", "allOf") and depth < 3:
             parts.append("%s[%s]" % (k, ",".join(schema_shape(x, depth + 1) for x in v)))
         elif k == "items" and depth < 3:
-            parts.append("items(%s)" % (schema_shape(v, depth + 1) if isinstance(v, dict)
+            parts.append("items(%s)" % (schema_shape(v, depth + 1) if not isinstance(v, list)
                                         else ",".join(schema_shape(x, depth + 1) for x in v)))
         elif k in ("additionalProperties", "not") and isinstance(v, dict) and depth < 3:
             parts.append("%s(%s)" % (k, schema_shape(v, depth + 1)))
